@@ -36,8 +36,8 @@ func TestProp(t *testing.T)   { vkit.RunAll(t) }
 func TestReplay(t *testing.T) { vkit.RunReplay(t) }
 
 func init() {
-	vkit.Register("suffix", vkit.N{Quick: 2000, Thorough: 40000}, genSuffix, runSuffix)
-	vkit.Register("logical", vkit.N{Quick: 2000, Thorough: 60000}, genLogical, runLogical)
+	vkit.Register("suffix", vkit.N{Quick: 1000, Thorough: 32000}, genSuffix, runSuffix)
+	vkit.Register("logical", vkit.N{Quick: 1600, Thorough: 60000}, genLogical, runLogical)
 	// one case per shard; the case itself says whether this shard runs it (see genCross)
 	vkit.Register("cross", vkit.N{Quick: 4, Thorough: 16}, genCross, runCross)
 }
